@@ -22,6 +22,97 @@ REGEX_SPEC = [('${radians(-137.5)}', '-137.5'), ('${radians(90)}', '90'), ('${ra
               ('1.5708', None), ('${radians(abc)}', None), ('${radians(1.)}', None), ('x${radians(3)}', None)]
 
 
+def _reads_limits(g, readers):
+    """the branch condition inspects the outcome of reading a <limit> element (a call or function reference of the limits reader)"""
+    return mir.contains(g, lambda x: (x[0] == 'call' and (x[1] in readers or cname(x[1]) == 'Option::transpose')) or
+                        (x[0] == 'const' and x[1] == 'fn' and x[2] in readers))
+
+
+def limits_defaults(ctx, fu):
+    """R20.2: how limits get from the URDF into a Constraints value (also re-checked by C07)"""
+    prog = ctx.prog
+    cj = util.find_role(ctx, 'recursive joint collector: fn(Element, &mut Vec<JointData>, ..)',
+                        lambda b, sg: len(sg) >= 3 and 'Element' in sg[1] and 'Vec<urdf::JointData>' in sg[2].replace('std::vec::', ''), module='urdf::', called_from=[fu])
+    jd = None
+    for i, j, st in cj.stmts():
+        if st['rv']['k'] == 'agg' and 'JointData' in str(st['rv']['kind']):
+            jd = (i, j, st)
+    ctx.require(jd is not None, 'JointData aggregate in collect_joints')
+    t = cj.rv_term(jd[2]['rv'], (jd[0], jd[1]))
+    fields = dict(zip([f['name'] for f in prog.adts['urdf::JointData']['variants'][0]['fields']], t[2:]))
+    init_ok = util.const_val(fields['from']) == 0.0 and util.const_val(fields['to']) == 0.0
+    loc = jd[2]['lhs']['local']
+    wr = []
+    for i, j, st in cj.stmts():
+        lhs = st['lhs']
+        if lhs['local'] == loc and lhs['proj'] and lhs['proj'][0].get('name') in ('from', 'to'):
+            gs = [(g, k) for g, k, sw in cj.guard_terms(i)]
+            wr.append((lhs['proj'][0]['name'], gs))
+    limit_readers = {p for p, b2 in prog.bodies.items() if p.startswith('urdf::') and b2.kind != 'Closure' and '(f64, f64)' in b2.local_ty(0)}
+    guarded = all(any(_reads_limits(g, limit_readers) for g, k in gs) for nme, gs in wr)
+    ctx.check(init_ok and guarded and len(wr) == 2, 'R20.2', 'no-limit-default', cj.where(jd[0], jd[1]), cj.path,
+              'a joint without <limit> must keep from = to = 0 (writes to from/to only when limits were read)', found='init=%s writes=%d guarded=%s' % (init_ok, len(wr), guarded))
+    for name in ('to_robot', 'constraints'):
+        b = util.find_one(ctx, suffix='urdf::URDFParameters::' + name)
+        cs = [(bi, t2) for bi, t2 in b.calls() if cname(callee_name(t2)) == 'Constraints::new']
+        ok = len(cs) == 1
+        if ok:
+            bi, t2 = cs[0]
+            a = [strip(b.op_term(x, (bi, None))) for x in t2['args']]
+            ok = all(isinstance(a[k], tuple) and a[k][0] == 'fld' and a[k][2] == nm and util.is_param(a[k][1], 1) for k, nm in ((0, 'from'), (1, 'to')))
+        ctx.check(ok, 'R20.2', name + '/limits', b.where(0), b.path, 'the extracted from/to must reach Constraints::new unchanged and in this order')
+
+    # the "unconstrained" meaning of from == to is R07.2a; re-checked here because C20 relies on it
+    from . import C07
+    cc, ib = C07.roles(ctx)
+    from ..absint import Iv
+    for x in (0.0,):
+        outs = C07.interp_centers(prog, cc, [(x, x)] * 6, [(x, x)] * 6)
+        res = set()
+        for o in outs:
+            res |= C07.interp_inside(prog, ib, Iv(-13.0, 13.0), o.ret[0][0], o.ret[1][0])
+        ctx.check(res == {True}, 'R20.2', 'from==to-accepts-all', ib.where(0), ib.path,
+                  'a joint without limits (from = to = 0) must accept every angle, but the membership test answers %s' % sorted(map(str, res)), found=sorted(map(str, res)))
+
+    return cj
+
+
+def angle_syntax(ctx, fu):
+    """R20.6: the xacro angle syntax of limits (also re-checked by C07)"""
+    prog = ctx.prog
+    pa = util.find_role(ctx, 'angle parser: fn(&str) -> Result<f64, ParameterError> constructing a Regex',
+                        lambda b, sg: sg[1:] == ['&str'] and 'Result<f64' in sg[0] and any(cname(callee_name(t)) == 'Regex::new' for _, t in b.calls()), module='urdf::', called_from=[fu])
+    pats = []
+    grp = None
+    for bi, t2 in pa.calls():
+        n2 = cname(callee_name(t2))
+        if n2 == 'Regex::new':
+            a = strip(pa.op_term(t2['args'][0], (bi, None)))
+            if isinstance(a, tuple) and a[0] == 'const' and a[1] == 'str':
+                pats.append(a[2])
+        if n2 == 'Captures::get':
+            grp = util.const_val(pa.op_term(t2['args'][1], (bi, None)))
+    if ctx.check(len(pats) == 1 and isinstance(grp, int), 'R20.6', 'pattern-site', pa.where(0), pa.path, 'angle pattern / capture index not found', found='%s group %s' % (pats, grp)):
+        try:
+            rx = re.compile(pats[0])
+        except re.error as e:
+            rx = None
+        for tok, want in REGEX_SPEC:
+            got = None
+            if rx is not None:
+                m = rx.match(tok)
+                if m and m.end() == len(tok):
+                    try:
+                        got = m.group(grp)
+                    except IndexError:
+                        got = '<no such group>'
+            ctx.check(got == want, 'R20.6', 'token %s' % tok, pa.where(0), pa.path,
+                      'for the limit `%s` the number handed to the float parser is %r, expected %r' % (tok, got, want), found=repr(got), expected=repr(want), detail=repr(got))
+        conv = any(cname(callee_name(t2)) == 'f64::to_radians' for bi, t2 in pa.calls()) or any(cname(callee_name(t2)) == 'f64::to_radians' for c in util.closure_bodies(prog, pa.path) for bi, t2 in c.calls())
+        ctx.check(conv, 'R20.6', 'degrees-to-radians', pa.where(0), pa.path, 'a ${radians(deg)} limit must be converted to radians')
+
+
+
 def run(ctx):
     prog = ctx.prog
     ctx.rule('R20.1', 'panic-site census from urdf::from_urdf (bounds, unwrap, index, slicing, regex construction)')
@@ -47,48 +138,7 @@ def run(ctx):
                     okc = okc and isinstance(a, tuple) and a[0] == 'call' and cname(a[1]) == 'str::to_lowercase'
         ctx.check(okc and nsite >= 1, 'R20.1', 'slice-precondition', rb[0].where(0), rb[0].path, 'remove_before_joint must only be called with an already lower-cased string (its s[pos..] slice relies on it)')
 
-    # ---- R20.2
-    cj = util.find_role(ctx, 'recursive joint collector: fn(Element, &mut Vec<JointData>, ..)',
-                        lambda b, sg: len(sg) >= 3 and 'Element' in sg[1] and 'Vec<urdf::JointData>' in sg[2].replace('std::vec::', ''), module='urdf::', called_from=[fu])
-    jd = None
-    for i, j, st in cj.stmts():
-        if st['rv']['k'] == 'agg' and 'JointData' in str(st['rv']['kind']):
-            jd = (i, j, st)
-    ctx.require(jd is not None, 'JointData aggregate in collect_joints')
-    t = cj.rv_term(jd[2]['rv'], (jd[0], jd[1]))
-    fields = dict(zip([f['name'] for f in prog.adts['urdf::JointData']['variants'][0]['fields']], t[2:]))
-    init_ok = util.const_val(fields['from']) == 0.0 and util.const_val(fields['to']) == 0.0
-    loc = jd[2]['lhs']['local']
-    wr = []
-    for i, j, st in cj.stmts():
-        lhs = st['lhs']
-        if lhs['local'] == loc and lhs['proj'] and lhs['proj'][0].get('name') in ('from', 'to'):
-            gs = [(show(g, maxdepth=4), k) for g, k, sw in cj.guard_terms(i)]
-            wr.append((lhs['proj'][0]['name'], gs))
-    guarded = all(any('get_limits' in s or 'transpose' in s for s, k in gs) for nme, gs in wr)
-    ctx.check(init_ok and guarded and len(wr) == 2, 'R20.2', 'no-limit-default', cj.where(jd[0], jd[1]), cj.path,
-              'a joint without <limit> must keep from = to = 0 (writes to from/to only when limits were read)', found='init=%s writes=%d guarded=%s' % (init_ok, len(wr), guarded))
-    for name in ('to_robot', 'constraints'):
-        b = util.find_one(ctx, suffix='urdf::URDFParameters::' + name)
-        cs = [(bi, t2) for bi, t2 in b.calls() if cname(callee_name(t2)) == 'Constraints::new']
-        ok = len(cs) == 1
-        if ok:
-            bi, t2 = cs[0]
-            a = [strip(b.op_term(x, (bi, None))) for x in t2['args']]
-            ok = all(isinstance(a[k], tuple) and a[k][0] == 'fld' and a[k][2] == nm and util.is_param(a[k][1], 1) for k, nm in ((0, 'from'), (1, 'to')))
-        ctx.check(ok, 'R20.2', name + '/limits', b.where(0), b.path, 'the extracted from/to must reach Constraints::new unchanged and in this order')
-
-    # the "unconstrained" meaning of from == to is R07.2a; re-checked here because C20 relies on it
-    from . import C07
-    cc, ib = C07.roles(ctx)
-    from ..absint import Iv
-    for x in (0.0,):
-        outs = C07.interp_centers(prog, cc, [(x, x)] * 6, [(x, x)] * 6)
-        res = set()
-        for o in outs:
-            res |= C07.interp_inside(prog, ib, Iv(-13.0, 13.0), o.ret[0][0], o.ret[1][0])
-        ctx.check(res == {True}, 'R20.2', 'from==to-accepts-all', ib.where(0), ib.path,
-                  'a joint without limits (from = to = 0) must accept every angle, but the membership test answers %s' % sorted(map(str, res)), found=sorted(map(str, res)))
+    cj = limits_defaults(ctx, fu)
 
     # ---- R20.3
     cm = util.find_role(ctx, 'name map builder: fn(Vec<JointData>) -> Result<HashMap<String, JointData>, ..>',
@@ -241,37 +291,7 @@ def run(ctx):
                 dflt = True
     ctx.check(dflt, 'R20.7', 'axis-default', cj.where(0), cj.path, 'a joint without <axis> must get sign correction 1, otherwise the axis helper decides')
 
-    # ---- R20.6 regex constant table
-    pa = util.find_role(ctx, 'angle parser: fn(&str) -> Result<f64, ParameterError> constructing a Regex',
-                        lambda b, sg: sg[1:] == ['&str'] and 'Result<f64' in sg[0] and any(cname(callee_name(t)) == 'Regex::new' for _, t in b.calls()), module='urdf::', called_from=[fu])
-    pats = []
-    grp = None
-    for bi, t2 in pa.calls():
-        n2 = cname(callee_name(t2))
-        if n2 == 'Regex::new':
-            a = strip(pa.op_term(t2['args'][0], (bi, None)))
-            if isinstance(a, tuple) and a[0] == 'const' and a[1] == 'str':
-                pats.append(a[2])
-        if n2 == 'Captures::get':
-            grp = util.const_val(pa.op_term(t2['args'][1], (bi, None)))
-    if ctx.check(len(pats) == 1 and isinstance(grp, int), 'R20.6', 'pattern-site', pa.where(0), pa.path, 'angle pattern / capture index not found', found='%s group %s' % (pats, grp)):
-        try:
-            rx = re.compile(pats[0])
-        except re.error as e:
-            rx = None
-        for tok, want in REGEX_SPEC:
-            got = None
-            if rx is not None:
-                m = rx.match(tok)
-                if m and m.end() == len(tok):
-                    try:
-                        got = m.group(grp)
-                    except IndexError:
-                        got = '<no such group>'
-            ctx.check(got == want, 'R20.6', 'token %s' % tok, pa.where(0), pa.path,
-                      'for the limit `%s` the number handed to the float parser is %r, expected %r' % (tok, got, want), found=repr(got), expected=repr(want), detail=repr(got))
-        conv = any(cname(callee_name(t2)) == 'f64::to_radians' for bi, t2 in pa.calls()) or any(cname(callee_name(t2)) == 'f64::to_radians' for c in util.closure_bodies(prog, pa.path) for bi, t2 in c.calls())
-        ctx.check(conv, 'R20.6', 'degrees-to-radians', pa.where(0), pa.path, 'a ${radians(deg)} limit must be converted to radians')
+    angle_syntax(ctx, fu)
 
 
 def _is_j_plus_1(g):
